@@ -590,7 +590,7 @@ func (g *c19Gen) newCase(grp *c19Group, gi, flight int, mws []c19Mw, focusDelay 
 	case 2:
 		c.msg.Metadata.Set(delay.DelayedForKey, []string{"0s", "250ms", "1h", "-1s"}[r.Intn(4)])
 	}
-	if r.Intn(25) == 0 {
+	if r.Intn(10) == 0 {
 		c.cancel() // the message arrives with a dead context
 	}
 	if r.Intn(12) == 0 {
@@ -655,22 +655,46 @@ type c19Thr struct {
 	Count    int64     `json:"count"`
 	Duration int64     `json:"duration"`
 	Workers  int       `json:"workers"`
-	Starts   [][]int64 `json:"starts"` // per worker, in call order
-	First    int64     `json:"first"`  // before the first call entered the middleware
-	Last     int64     `json:"last"`   // the latest recorded start
+	Mode     string    `json:"mode"`   // contexts of the messages: alive | done | mixed
+	Kinds    [][]int   `json:"kinds"`  // per worker, per call: 0 alive, 1 already cancelled, 2 cancelled during the wait,
+	// 3 deadline expires during the wait, 4 deadline already passed
+	DoneSeen [][]bool  `json:"done_seen"` // msg.Context().Err() != nil when the handler started
+	Starts   [][]int64 `json:"starts"`    // per worker, in call order
+	First    int64     `json:"first"`     // before the first call entered the middleware
+	Last     int64     `json:"last"`      // the latest recorded start
 	N        int       `json:"n"`
+	Want     int       `json:"want"` // calls made = handler starts expected
 }
 
-func c19Throttle(r *rand.Rand, count int64, dur time.Duration, workers, n int) c19Thr {
+// Handler start times through ONE Throttle value; the messages come with live, already ended and
+// ending-while-waiting contexts (the rate is a property of the handler starts whatever the message context is).
+func c19Throttle(r *rand.Rand, count int64, dur time.Duration, workers, n int, mode string) c19Thr {
+	period := dur / time.Duration(count)
+	per := n / workers
+	res := c19Thr{Count: count, Duration: int64(dur), Workers: workers, Mode: mode, Starts: make([][]int64, workers),
+		Kinds: make([][]int, workers), DoneSeen: make([][]bool, workers), Want: per * workers}
+	for w := 0; w < workers; w++ {
+		for i := 0; i < per; i++ {
+			k := 0
+			switch mode {
+			case "done":
+				k = []int{1, 1, 4, 2, 3}[r.Intn(5)]
+			case "mixed":
+				k = []int{0, 0, 0, 1, 1, 2, 3, 4}[r.Intn(8)]
+			}
+			res.Kinds[w] = append(res.Kinds[w], k)
+		}
+	}
 	t := middleware.NewThrottle(count, dur)
 	t0 := time.Now()
 	var mu sync.Mutex
-	res := c19Thr{Count: count, Duration: int64(dur), Workers: workers, Starts: make([][]int64, workers)}
 	mk := func(w int) message.HandlerFunc {
 		return t.Middleware(func(msg *message.Message) ([]*message.Message, error) {
 			d := int64(time.Since(t0))
+			done := msg.Context().Err() != nil
 			mu.Lock()
 			res.Starts[w] = append(res.Starts[w], d)
+			res.DoneSeen[w] = append(res.DoneSeen[w], done)
 			if d > res.Last {
 				res.Last = d
 			}
@@ -680,15 +704,34 @@ func c19Throttle(r *rand.Rand, count int64, dur time.Duration, workers, n int) c
 		})
 	}
 	var wg sync.WaitGroup
-	per := n / workers
 	res.First = int64(time.Since(t0))
 	for w := 0; w < workers; w++ {
 		wg.Add(1)
 		h := mk(w)
+		kinds := res.Kinds[w]
 		go func() {
 			defer wg.Done()
-			for i := 0; i < per; i++ {
-				_, _ = h(message.NewMessage("t", nil))
+			for _, k := range kinds {
+				msg := message.NewMessage("t", nil)
+				ctx, cancel := context.WithCancel(context.Background())
+				switch k {
+				case 1:
+					cancel()
+				case 2:
+					tm := time.AfterFunc(period/3, cancel)
+					defer tm.Stop()
+				case 3:
+					var c2 context.CancelFunc
+					ctx, c2 = context.WithTimeout(ctx, period/3)
+					defer c2()
+				case 4:
+					var c2 context.CancelFunc
+					ctx, c2 = context.WithDeadline(ctx, time.Now().Add(-time.Second))
+					defer c2()
+				}
+				msg.SetContext(ctx)
+				_, _ = h(msg)
+				cancel()
 			}
 		}()
 	}
@@ -699,7 +742,7 @@ func c19Throttle(r *rand.Rand, count int64, dur time.Duration, workers, n int) c
 func runC19(args []string) error {
 	fs, out, seed := newFlags("c19")
 	n := fs.Int("n", 500, "number of groups")
-	thr := fs.Int("thr", 3, "number of Throttle timing scenarios")
+	thr := fs.Int("thr", 5, "number of Throttle timing scenarios")
 	witness := fs.Bool("witness", false, "prepend the D2/D3 witnesses")
 	_ = fs.Parse(args)
 	c19In = script.NewInterner()
@@ -747,7 +790,8 @@ func runC19(args []string) error {
 	cfgs := [][3]int64{{100, int64(time.Second), 1}, {50, int64(time.Second), 4}, {3, int64(50 * time.Millisecond), 3}, {200, int64(time.Second), 2}}
 	for i := 0; i < *thr; i++ {
 		c := cfgs[(i+int(*seed))%len(cfgs)]
-		thrs = append(thrs, c19Throttle(g.r, c[0], time.Duration(c[1]), int(c[2]), 12))
+		mode := []string{"mixed", "done", "alive", "mixed", "done", "mixed"}[i%6]
+		thrs = append(thrs, c19Throttle(g.r, c[0], time.Duration(c[1]), int(c[2]), 12, mode))
 	}
 	return writeJSON(*out, map[string]interface{}{"cases": all, "throttle": thrs, "strings": c19In.Tab})
 }
